@@ -512,8 +512,12 @@ def load_known_findings():
         return json.load(f).get("findings", [])
 
 
+LAST_CHECK = [None]
+
+
 class Check:
     def __init__(self, pid: str):
+        LAST_CHECK[0] = self
         self.pid = pid
         self.tier = os.environ.get("VERIF_TIER", "quick")
         if "--tier" in sys.argv:
